@@ -26,6 +26,18 @@ impl Type {
     pub fn tuple_of(t: Vec<Self>) -> Self {
         Self::Tuple(t)
     }
+    /// The more specific of two types that compare equal: `any` (the member type of an empty array
+    /// literal) is a wildcard in comparisons and must not win over a known type.
+    pub fn unify(self, other: Self) -> Self {
+        match (self, other) {
+            (Self::Any, o) => o,
+            (Self::Array(a), Self::Array(b)) => Self::Array(Box::new(a.unify(*b))),
+            (Self::Tuple(a), Self::Tuple(b)) if a.len() == b.len() => {
+                Self::Tuple(a.into_iter().zip(b).map(|(a, b)| a.unify(b)).collect())
+            }
+            (s, _) => s,
+        }
+    }
 }
 
 impl PartialEq for Type {
@@ -331,15 +343,14 @@ impl Evaluatable for Value {
                 if a.is_empty() {
                     Ok(Type::Array(Box::new(Type::Any)))
                 } else {
-                    let t = a[0].real_type_of(ctx.clone())?;
-                    a.iter().try_for_each(|x| {
+                    let mut t = a[0].real_type_of(ctx.clone())?;
+                    for x in a.iter() {
                         let xt = x.real_type_of(ctx.clone())?;
                         if xt != t {
                             bail!("array member must have same type: required type={:?}, mismatch type={} item={:?}", t, xt, x)
-                        } else {
-                            Ok(())
                         }
-                    })?;
+                        t = t.unify(xt);
+                    }
                     Ok(Type::Array(Box::new(t)))
                 }
             }
